@@ -16,7 +16,7 @@ def agrees(res, extra):
 
 # ---------------------------------------------------------------- random formats and (mostly well-formed) recipes
 LETTERS = "abcdefghkmnpqrtuvw"
-VALS = {"str": ["x", "null", "-q", "a=b", "add", "7", "x y", "e", "", "a_b", "--x", "a-b_c=d", "X", "a,b", "1e3"],
+VALS = {"str": ["x", "null", "-q", "a=b", "add", "7", "x y", "e", "", "a_b", "--x", "a-b_c=d", "X", "a,b", "1e3", "--"],
         "int": ["7", "-3", "0", "42", "1_000", "+5", " 12 ", "9007199254740993"], "bool": ["true", "0", "no", "1", "on", "false", "yes", "off"]}
 
 
